@@ -922,6 +922,21 @@ class Engine:
             elif self.vc_timeout_ms > quick_ms:
                 s.set('timeout', self.vc_timeout_ms)
                 r = s.check()
+        if r == z3.unsat and self.tier == 'thorough' and backend.startswith('z3py') and backend != 'simplify':
+            # thorough tier: every obligation discharged by z3 5.1 is handed to the two other installed solvers
+            # (z3 4.8.12 and cvc5 1.0.3, independent code bases for cvc5) as an SMT-LIB text; agreement is recorded, a
+            # 'sat' from either makes the obligation undecided (solver disagreement), never a violation
+            try:
+                rr, be = run_portfolio(s.to_smt2(), min(self.vc_timeout_ms, 20000))
+            except Exception:
+                rr, be = 'unknown', ''
+            if rr == 'unsat':
+                backend += '+confirmed:' + be
+            elif rr == 'sat':
+                r = z3.unknown
+                backend += '+DISAGREES:' + be
+            else:
+                backend += '+second-solver-unknown'
         if r == z3.sat and not backend.startswith('z3py'):
             # a model is needed for replay: ask z3 5.1 again (bounded); the verdict itself stands
             s.set('timeout', self.vc_timeout_ms)
